@@ -53,6 +53,16 @@ def gen_content(rng, max_vars=7, max_depth=3, dashed=True, paths=True, free_vers
                     t[a] = "" if rng.random() < 0.08 else "%s/%s/%s" % (v["uid"], a, pick(rng, PATH_VALUES))
                 v["paths"][cat] = t
         K["vars"].append(v)
+        if v["dashed"] and rng.random() < 0.5 and len(K["vars"]) < max_vars:
+            # a sibling that sorts AFTER the dashed UID ("Srv-Server" < "SrvA1": '-' < 'A') but BEFORE its id
+            # ("SrvA1" < "SrvServer"): id order and UID order disagree
+            pre = v["uid"].split("-")[0]
+            sid = pre + pick(rng, ["A1", "0x", "B"])
+            if sid not in [x["id"] for x in K["vars"]]:
+                n2 = len(K["vars"])
+                K["vars"].append({"n": n2, "id": sid, "uid": sid, "parent": None, "dashed": False, "depth": 1,
+                                  "arches": sorted(subset(rng, pools.ARCHES, 1, 3)), "name": pick(rng, pools.NAMES),
+                                  "type": pick(rng, ["variant", "optional", "addon"]), "release": None, "paths": {}})
     return K
 
 
